@@ -4,6 +4,7 @@ package vexp
 
 import (
 	"fmt"
+	"os"
 	"sort"
 	"strings"
 	"time"
@@ -144,6 +145,7 @@ func RunPolicy(sc *Scenario, params map[string]int, prefix []int, policy func(i 
 }
 
 var debugIDs bool
+var slowLog = os.Getenv("VERIF_SLOWLOG") != ""
 
 func SetDebug(on bool) { debugIDs = on }
 
@@ -157,6 +159,7 @@ type Violation struct {
 
 type Stats struct {
 	Executions  int64
+	Runs        int64
 	Points      int64 // decision points seen (sum over executions)
 	Steps       int64
 	MaxPoints   int
@@ -231,7 +234,12 @@ func (e *Explorer) explore(prefix []int, used cost, depth int) {
 		e.St.DeadlineHit = true
 		return
 	}
+	t0 := time.Now()
 	x := RunOnce(e.Sc, e.Params, prefix, false)
+	e.St.Runs++
+	if d := time.Since(t0); d > 50*time.Millisecond && slowLog {
+		fmt.Printf("SLOW run %v steps=%d points=%d horizon=%v deadlock=%v prefixlen=%d depth=%d\n", d, x.Steps, len(x.Points), x.Horizon, x.Deadlock, len(prefix), depth)
+	}
 	if owner {
 		e.record(x)
 	}
